@@ -231,8 +231,9 @@ def check(run):
          construct='persist: normal exit reachable bypassing exit_event')
     R.ob('C16.forever', 'an exit exists', g.exit in g.reachable([g.entry]) and bool(exit_tests),
          'no way out of persist() through the exit event', func=FN, node=f.node, construct='persist: no exit')
-    bad = [n for n in own_nodes(f.node) if isinstance(n, (ast.Return, ast.Raise))]
-    R.ob('C16.forever', 'no return/raise', not bad, 'return/raise statement in persist()',
+    # a `return` is just another way to reach the function end and is covered by the reachability obligation above
+    bad = [n for n in own_nodes(f.node) if isinstance(n, ast.Raise)]
+    R.ob('C16.forever', 'no raise', not bad, 'raise statement in persist()',
          func=FN, node=bad[0] if bad else f.node)
     # break inside the connection loop (nearest loop is the connection loop)
     parents = R.types.parents(f)
@@ -268,10 +269,14 @@ def check(run):
     # --- C16.onebackoff
     after = succs(fornode, 'exhausted')
     backoffs = []
+    bo_call = {}
     for n in g.live_nodes():
-        if n.kind == 'yield' and isinstance(n.ast.value, ast.Call) and \
-                any(t.kind == 'ctor' and t.cls == 'events.BackOff' for t in R.types.call_targets(n.ast.value, ctx)):
-            backoffs.append(n)
+        if n.kind == 'yield' and n.ast.value is not None:
+            v, vn = rd.origin(n, n.ast.value)
+            if isinstance(v, ast.Call) and any(t.kind == 'ctor' and t.cls == 'events.BackOff'
+                                               for t in R.types.call_targets(v, ctx)):
+                backoffs.append(n)
+                bo_call[n] = (v, vn)
     need(backoffs, 'no `yield events.BackOff(...)` found in persist()')
     loopheads = [n for n in g.live_nodes() if n.kind == 'loophead']
     nx = lambda a, b, l: l.startswith('exc:')
@@ -292,7 +297,7 @@ def check(run):
          func=FN, node=(stray[0].ast if stray else backoffs[0].ast))
     delay_defs = []
     for b in backoffs:
-        call = b.ast.value
+        call, call_node = bo_call[b]
         arg = call.args[0] if call.args else (call.keywords[0].value if call.keywords else None)
         need(arg is not None, 'BackOff() called without a delay')
         for w in wait_tests:
@@ -300,15 +305,15 @@ def check(run):
             same = False
             if warg is not None:
                 if isinstance(arg, ast.Name) and isinstance(warg, ast.Name) and arg.id == warg.id:
-                    same = rd.defs_at(b, arg.id) == rd.defs_at(w, warg.id) and len(rd.defs_at(b, arg.id)) == 1
+                    same = rd.defs_at(call_node, arg.id) == rd.defs_at(w, warg.id) and len(rd.defs_at(call_node, arg.id)) == 1
                 else:
-                    oa, na = rd.origin(b, arg)
+                    oa, na = rd.origin(call_node, arg)
                     ow, nw = rd.origin(w, warg)
                     same = (oa is ow)
             R.ob('C16.onebackoff', 'BackOff delay is the delay waited', same,
                  'BackOff(%s) but exit_event.wait(%s) - different values' % (U(arg), U(warg)),
                  func=FN, node=w.ast)
-        delay_defs.append((b, arg))
+        delay_defs.append((call_node, arg))
     R.ob('C16.onebackoff', 'the exit test waits', bool(wait_tests),
          'persist() does not wait (exit_event.wait(delay)) between attempts', func=FN, node=f.node,
          construct='persist: no exit_event.wait')
